@@ -91,7 +91,7 @@ fn build(ch: &mut Chooser, anchor: (u32, u32), positions: &[(u32, u32)], thoroug
     sheet.preamble = !ch.flag("no-optional-blocks-before-sheetdata");
     if ch.flag("cell-fPhShow-bit-set") { sheet.cell_flags = 1; }
     if sheet.preamble { sheet.preamble_bulk = ch.choose("bulk-in-the-skipped-blocks-before-sheet-data(none,600-area selection,1000-area selection,410 column infos)", 4) as u8; }
-    let book = BBook { sheets: vec![sheet, BSheet::new("Other", vec![BItem::Cell { row: 3, col: 2, style: 0, val: BVal::Real(9.0) }])], sst: SST.iter().map(|s| s.to_string()).collect(), ..Default::default() };
+    let book = BBook { sheets: vec![sheet, BSheet::new("Other", vec![BItem::Cell { row: 3, col: 2, style: 0, val: BVal::Real(9.0) }])], sst: SST.iter().map(|s| s.to_string()).collect(), sst_total_refs: [None, Some(1), Some(977)][ch.choose("sst-reference-count(equal to the item count,smaller,larger)", 3)], rel_ids_non_ascii: ch.flag("relationship-ids-with-non-ascii-letters"), ..Default::default() };
     let bytes = write(&book, if ch.flag("zip-stored") { Method::Stored } else { Method::Deflated });
     let d = json!({"cells": desc, "stream": items.iter().map(|i| match i { BItem::Cell { row, col, val, .. } => format!("cell({row},{col}) {}", format!("{val:?}").chars().take(24).collect::<String>()), BItem::Raw(t, d) => format!("rec {t:#06x} len {}", d.len()) }).collect::<Vec<_>>()});
     (bytes, exp, d)
@@ -154,7 +154,7 @@ fn position_sets(kmax: usize) -> Vec<Vec<(u32, u32)>> {
 }
 
 /// Shared-string tables past the 16-bit index boundary: BrtCellIsst carries a 32-bit index.
-fn large_sst(rep: &Report) {
+pub(crate) fn large_sst(rep: &Report) {
     [65_535usize, 65_536, 65_537, 66_000].par_iter().for_each(|&n| {
         crate::engine::crumb::set_job(&format!("C03 shared-string table of {n} strings"));
         let idx: Vec<u32> = [0u32, 1, 255, 256, 65_534, 65_535, 65_536, 65_537, n as u32 - 1].into_iter().filter(|i| (*i as usize) < n).collect();
@@ -186,13 +186,14 @@ pub fn check(rep: &Report) {
 
 fn check_sheets(rep: &Report) {
     let t = crate::thorough(&rep.tier);
-    rep.rule("sheets with <= k cells in a 2x3 window at anchors {(0,0),(1,126),(1048574,16381)} over ~70 cell kinds = 13 numbers x every exact RK encoding + BrtCellReal, BrtCellIsst/St/Bool/Error (8 codes), BrtFmlaNum/String/Bool/Error; at every gap an ignorable record (BrtCellMeta, BrtValueMeta, FRT block with an unknown future record, unknown ids 0x7F/0x80/0x3FFF) with payload lengths {0,1,127,128,16383,16384} and, separately, records of 2^21-1, 2^21, 2^21+1 and 2^22 bytes (4-byte length prefix) at every gap of a two-cell sheet; blank cells; with/without the optional blocks before BrtBeginSheetData; all choice vectors with <= d deviations; non-trivial = non-default choice; distinct by file bytes");
+    rep.rule("sheets with <= k cells in a 2x3 window at anchors {(0,0),(1,126),(1048574,16381)} (quick: every third two-cell position set at the second and third anchor) over ~70 cell kinds = 13 numbers x every exact RK encoding + BrtCellReal, BrtCellIsst/St/Bool/Error (8 codes), BrtFmlaNum/String/Bool/Error; at every gap an ignorable record (BrtCellMeta, BrtValueMeta, FRT block with an unknown future record, unknown ids 0x7F/0x80/0x3FFF) with payload lengths {0,1,127,128,16383,16384} and, separately, records of 2^21-1, 2^21, 2^21+1 and 2^22 bytes (4-byte length prefix) at every gap of a two-cell sheet; blank cells; with/without the optional blocks before BrtBeginSheetData; all choice vectors with <= d deviations; non-trivial = non-default choice; distinct by file bytes");
     rep.assume("RK int with the /100 flag may read as Int or Float (numeric equality required); worksheet_range and worksheet_range_ref must agree");
     let anchors: [(u32, u32); 3] = [(0, 0), (1, 126), (1_048_574, 16_381)];
     let kmax = 2;
     let dev = if t { 3 } else { 2 };
     let mut jobs = vec![];
-    for a in anchors { for p in position_sets(kmax) { jobs.push((a, p)); } }
+    // quick: every two-cell position set at the first anchor, every third one at the other two
+    for (ai, a) in anchors.iter().enumerate() { for (pi, p) in position_sets(kmax).into_iter().enumerate() { if t || ai == 0 || p.len() < 2 || pi % 3 == ai % 3 { jobs.push((*a, p)); } } }
     let stats = Mutex::new(Stats::default());
     jobs.par_iter().for_each(|(a, p)| {
         crate::engine::crumb::set_job(&format!("C03 anchor={a:?} positions={p:?}"));
